@@ -23,10 +23,17 @@ ASSUMPTIONS = [
 
 
 # direct clauses reported under a clause of the property
-DIRECT_CLAUSE = {"resend_before_dispatch": "fifo"}   # a queued command must not overtake the retransmissions of a resumed session
+DIRECT_CLAUSE = {
+    "resend_before_dispatch": "fifo",   # a queued command must not overtake the retransmissions of a resumed session
+    # the option sweep (go/cmd/service/optsweep.go): the documented meaning of an option value, reported under the clause it serves
+    "backoff": "reconnect",             # the pause before a reconnect lies between MinReconnectDelay and MaxReconnectDelay
+    "keepalive": "reconnect",           # Config.KeepAlive below the service: answered pings keep the connection, unanswered ones end it
+    "disconnect_timeout": "stop",       # Stop waits DisconnectTimeout for pending futures (0 / negative: not at all) and returns
+    "resub_off": "resub_set",           # ResubscribeAllSubscriptions=false: no resubscribe request
+}
 
 FAMILIES = ["r-", "t-", "basic", "d8-", "d15-", "resub-sorted", "d17-", "d16-", "s5-", "a-start", "s1-", "s2-", "s3-", "s4-", "s6-", "s7", "b-", "b2-",
-            "b3-", "b4-", "many-", "large-", "q-", "k-", "rand-", "conc-"]
+            "b3-", "b4-", "many-", "large-", "q-", "k-", "o-", "ob-", "od-", "ot-", "or-", "oc-", "ok-", "op-", "oq-", "of-", "rand-", "conc-"]
 
 
 def run(ck):
@@ -60,6 +67,18 @@ def run(ck):
     for l in ex:
         if l.startswith("scn "):
             names[l.split()[1]] = l
+    # findings the option sweep records on this tree (a boundary value under which the unchanged code breaks a clause):
+    # printed, kept in the evidence, not a violation of this run
+    findings = sorted(set(l.split(" ok ", 1)[1] for l in ex if l.startswith("direct finding ") and " ok " in l and ":OBSERVED:" in l))
+    if findings:
+        ck.extra["findings_observed"] = findings
+        for f in findings:
+            if f.startswith("F-timeout0") or f.startswith("F-callback-api-vs-stop"):
+                # "Stopping the service always returns" is violated on this input: a violation unless listed as an open known finding
+                ck.fail_input("stop", "finding " + f, [l for l in ex if l.startswith("direct finding ") and f in l][:1])
+            else:
+                # outside the property's quantifier (a callback that stops or closes its own service / client, a 1 ns Wait): observation
+                print("NOTE: observation (DESIGN.md 12.4, not a clause of the property): " + f[:400])
     direct_fail = [l for l in ex if l.startswith("direct ") and " FAIL" in l]
     for l in direct_fail:
         w = l.split()
